@@ -511,7 +511,51 @@ def run_history(ctx, rng, thorough=False):
     return " ".join(line), hist
 
 
+def slide_numbering(ctx):
+    """slide part names after the first access to Presentation.slides and after added slides, for decks with scrambled
+    names and with slide parts that are no longer in the slide-id list - against the model's numbering"""
+    import re
+    from pptx import Presentation
+    from pptx.opc.packuri import PackURI
+    from pptx.parts.slide import SlidePart
+
+    rng = ctx.rng
+    lines, impl, metas = [], [], []
+    for _ in range(12 if ctx.quick else 120):
+        n, k, j = rng.randint(1, 5), rng.randint(0, 3), rng.randint(0, 4)
+        prs = Presentation()
+        for _i in range(n + k):
+            prs.slides.add_slide(prs.slide_layouts[6])
+        for s_, num in zip(list(prs.slides), rng.sample(range(1, 15), n + k)):
+            s_.part.partname = PackURI("/ppt/slides/slide%d.xml" % num)
+        lst = prs.part._element.sldIdLst
+        for _i in range(k):
+            lst.remove(lst[rng.randrange(len(lst))])       # the relationship (and the part) stays
+        b = io.BytesIO(); prs.save(b)
+        prs = Presentation(io.BytesIO(b.getvalue()))
+        news = []
+        for _i in range(j):
+            news.append(int(re.search(r"slide(\d+)\.xml", str(prs.slides.add_slide(prs.slide_layouts[6]).part.partname)).group(1)))
+        if j == 0:
+            len(prs.slides)
+        nums = sorted(int(re.search(r"slide(\d+)\.xml", str(p.partname)).group(1)) for p in prs.part.package.iter_parts() if isinstance(p, SlidePart))
+        lines.append(f"c02.slidenums {n} {k} {j}")
+        impl.append(f"{','.join(map(str, nums)) or '!'} {','.join(map(str, news)) or '!'}")
+        metas.append({"listed": n, "unlisted": k, "added": j})
+        ctx.case(key=lines[-1])
+        out = io.BytesIO(); prs.save(out)
+        names = zipfile.ZipFile(io.BytesIO(out.getvalue())).namelist()
+        if len(names) != len(set(names)):
+            ctx.fail("zip-duplicate-member", f"deck with {n} listed and {k} unlisted slide parts, {j} slides added: duplicate members {sorted(x for x in set(names) if names.count(x) > 1)[:4]}", metas[-1])
+    res = ctx.driver.run(lines)
+    for meta, i, m in zip(metas, impl, res):
+        ctx.traces += 1
+        if i != m:
+            ctx.disagree("slide-numbering", meta, i, m)
+
+
 def correspond(ctx):
+    slide_numbering(ctx)
     rng = ctx.rng
     lines, hists = [], []
     n = 60 if ctx.quick else 1000
